@@ -207,10 +207,13 @@ def ob_mutate(name, tindex, kind, positions):
         triples.append((_ms, "_raw_mssql", raw_mssql))
     npaths = 0
     for pos in positions:
-        if pos > len(t) or (kind in ("sub", "bsub") and pos >= len(t)):
+        if pos > len(t) or (kind in ("sub", "bsub") and pos >= len(t)) or (kind == "sub2" and pos + 1 >= len(t)):
             continue
         ch = z3.BitVec("c", 21)
+        ch2 = z3.BitVec("c2", 21)
         valid_cp = z3.And(z3.ULE(ch, 0x10FFFF), z3.Or(z3.ULT(ch, 0xD800), z3.UGT(ch, 0xDFFF)))
+        if kind == "sub2":
+            valid_cp = z3.And(valid_cp, z3.ULE(ch2, 0x10FFFF), z3.Or(z3.ULT(ch2, 0xD800), z3.UGT(ch2, 0xDFFF)))
         if kind == "bsub":
             # the stored hash handed over as bytes, one arbitrary byte (incl. ones that are not UTF-8) at this position
             valid_cp = z3.ULE(ch, 0xFF)
@@ -219,6 +222,10 @@ def ob_mutate(name, tindex, kind, positions):
             orig_ch = t[pos]
         elif kind == "sub":
             m = SStr(list(t[:pos]) + [ch] + list(t[pos + 1:]))
+            orig_ch = t[pos]
+        elif kind == "sub2":
+            # two neighbouring characters replaced at once
+            m = SStr(list(t[:pos]) + [ch, ch2] + list(t[pos + 2:]))
             orig_ch = t[pos]
         else:
             m = SStr(list(t[:pos]) + [ch] + list(t[pos:]))
@@ -250,13 +257,14 @@ def ob_mutate(name, tindex, kind, positions):
                 results.append(inconclusive("vacuous: the unmodified hash (as bytes) is not identified on any path at position %d" % pos,
                                             name="%s[#%d,%s@%d]" % (name, tindex, kind, pos)))
                 continue
-        if kind == "sub" and good_chk is not None and hasattr(base, "_calc_checksum") and not getattr(base, "is_disabled", False):
+        is_orig = (ch == ord(orig_ch)) if kind != "sub2" else z3.And(ch == ord(orig_ch), ch2 == ord(t[pos + 1]))
+        if kind in ("sub", "sub2") and good_chk is not None and hasattr(base, "_calc_checksum") and not getattr(base, "is_disabled", False):
             # reachability witness: with the original character this is the unmodified hash, which must verify on some path
             def _accepts(p):
                 v = p.result.get("verify") if p.exc is None else None
                 if v is True:
-                    return check(p.cond(), ch == ord(orig_ch))[0] == "sat"
-                return isinstance(v, SBool) and check(p.cond(), v.e, ch == ord(orig_ch))[0] == "sat"
+                    return check(p.cond(), is_orig)[0] == "sat"
+                return isinstance(v, SBool) and check(p.cond(), v.e, is_orig)[0] == "sat"
             if not any(_accepts(p) for p in paths):
                 results.append(inconclusive("vacuous: the unmodified hash does not verify on any path at position %d (a model or "
                                             "stub rejects everything)" % pos, name="%s[#%d,%s@%d]" % (name, tindex, kind, pos)))
@@ -270,15 +278,18 @@ def ob_mutate(name, tindex, kind, positions):
                 bad = ("identify() does not answer True/False: %r" % (o["identify"],), p)
                 break
             v = o["verify"]
-            if name == "scram" and _scram_unconsulted(t, pos, kind):
+            k1 = "sub" if kind == "sub2" else kind
+            if name == "scram" and _scram_unconsulted(t, pos, k1) and (kind != "sub2" or _scram_unconsulted(t, pos + 1, k1)):
                 continue       # by design: verify() consults one digest (the first of _verify_algs present); the others are not its input
-            if base.name == "mssql2000" and _mssql2000_unconsulted(t, pos, kind):
+            if base.name == "mssql2000" and _mssql2000_unconsulted(t, pos, k1) and (kind != "sub2" or _mssql2000_unconsulted(t, pos + 1, k1)):
                 continue       # documented: "Only the second digest is used when verifying passwords"
             if v is True or (isinstance(v, SBool)):
                 # accepted: must be the original character or a documented re-encoding of the same digest bits
-                claim = (ch == ord(orig_ch)) if kind in ("sub", "bsub") else z3.BoolVal(False)
-                if kind in ("sub", "bsub"):
+                claim = (ch == ord(orig_ch)) if kind in ("sub", "bsub", "sub2") else z3.BoolVal(False)
+                if kind in ("sub", "bsub", "sub2"):
                     claim = z3.Or(claim, equivalent(base, t, pos, orig_ch, ch))
+                if kind == "sub2":
+                    claim = z3.And(claim, z3.Or(ch2 == ord(t[pos + 1]), equivalent(base, t, pos + 1, t[pos + 1], ch2)))
                 cond = p.cond() if v is True else z3.And(p.cond(), v.e)
                 r, mdl = check(cond, z3.Not(claim), timeout_ms=20000)
                 if r == "sat":
@@ -293,9 +304,12 @@ def ob_mutate(name, tindex, kind, positions):
                 r, mdl = check(p.cond())
             cp = mdl.eval(ch, True).as_long() if mdl is not None else 0x41
             mutated = (t[:pos] + chr(cp) + (t[pos + 1:] if kind in ("sub", "bsub") else t[pos:]))
+            if kind == "sub2":
+                cp2 = mdl.eval(ch2, True).as_long() if mdl is not None else ord(t[pos + 1])
+                mutated = t[:pos] + chr(cp) + chr(cp2) + t[pos + 2:]
             internal = bad[0].startswith("raises")
             key = "mutate:%s:%s" % (base.name, ("internal-error" if internal else "accepts-altered:" + classify(t, mutated)))
-            results.append(violation("%s: %s of U+%04X at %d in %r -> %s" % (name, {"sub": "substitution", "bsub": "substitution (hash as bytes)"}.get(kind, "insertion"), cp, pos,
+            results.append(violation("%s: %s of U+%04X at %d in %r -> %s" % (name, {"sub": "substitution", "bsub": "substitution (hash as bytes)", "sub2": "substitution of two neighbours"}.get(kind, "insertion"), cp, pos,
                                                                               t, bad[0]), key,
                                      {"module": "harness.c08", "func": "replay_mutant",
                                       "args": {"name": name, "orig": t, "mutated": mutated, "as_bytes": kind == "bsub"}},
@@ -304,7 +318,7 @@ def ob_mutate(name, tindex, kind, positions):
     if not any(r["status"] == "violation" for r in results):
         results.append(ok("%s template %d (%d chars): %s of any code point at %d positions: identify answers, verify/needs_update "
                           "answer or raise ValueError/TypeError, acceptance only for the original character or a documented "
-                          "re-encoding (%d paths)" % (name, tindex, len(t), {"sub": "substitution", "bsub": "substitution (hash as bytes)"}.get(kind, "insertion"), len(positions), npaths),
+                          "re-encoding (%d paths)" % (name, tindex, len(t), {"sub": "substitution", "bsub": "substitution (hash as bytes)", "sub2": "substitution of two neighbours"}.get(kind, "insertion"), len(positions), npaths),
                           paths=npaths, name="%s[#%d,%s]" % (name, tindex, kind)))
     return results
 
@@ -588,6 +602,15 @@ def run(tier, seed, t0, only=None):
             for i in range(0, len(ps), 24):
                 obs.append(Ob("mutate[%s#%d,bsub,%d..]" % (n, ti, ps[i]), ob_mutate,
                               {"name": n, "tindex": ti, "kind": "bsub", "positions": ps[i:i + 24]}, timeout=1800))
+    if tier != "quick":
+        # two neighbouring characters at once, over the structural part (idents, separators, numbers, start of the salt)
+        for n in sel:
+            H, tmpls = templates(n)
+            for ti, t in enumerate(tmpls[:4]):
+                ps = [q for q in range(0, min(len(t) - 1, 30))]
+                for i in range(0, len(ps), 6):
+                    obs.append(Ob("mutate[%s#%d,sub2,%d..]" % (n, ti, ps[i]), ob_mutate,
+                                  {"name": n, "tindex": ti, "kind": "sub2", "positions": ps[i:i + 6]}, timeout=1800))
     for i in range(0, len(names), 12):
         obs.append(Ob("case-expansions#%d" % (i // 12), ob_expanders, {"names": names[i:i + 12]}, timeout=900))
     for i in range(0, len(names), 6):
@@ -599,15 +622,17 @@ def run(tier, seed, t0, only=None):
         PROP, tier, seed, "other", results, t0=t0,
         functions=["<hasher>.identify / verify / needs_update / from_string for %d hashers" % len(sel), "passlib.utils.handlers.parse_mc2/"
                    "parse_mc3/parse_int/GenericHandler.from_string/PrefixWrapper._unwrap_hash", "compiled patterns of the handlers (via SRegex)"],
-        bounds="%d hashers (thorough: all %d registered), 1-3 valid hash strings each; one character replaced by / inserted as ANY Unicode "
-               "code point at every position (quick: every structural position and a seed-rotated sixth of the digest positions); "
+        bounds="%d hashers (all %d registered), 1-4 valid hash strings each (one per ident); one character replaced by / inserted as ANY Unicode "
+               "code point at every position (quick: every structural position and a seed-rotated sixth of the digest positions; thorough "
+               "also two neighbouring characters at once over the first 30 positions); "
                "all truncations, deletions, character duplications and a list of affix/garbage strings concretely" % (len(sel), len(names)),
         stubs=["_calc_checksum -> the original digest iff the parsed settings equal the original ones, else another digest "
                "(collision-free primitive assumption)", "str/bytes/int isinstance + int() -> exact model incl. Unicode digits, sign, "
                "blanks, underscores", "re patterns -> SRegex over the real pattern's parse tree", "h64/bcrypt64/base64/hex codecs -> "
                "C12 models", "alphabet constants -> symbolic-aware character sets"],
         assumptions=["digest primitives are collision free on differing settings"],
-        outside=["two or more simultaneous edits", "bytes-typed hashes beyond the concrete list"],
+        outside=["two or more simultaneous edits other than two neighbouring substitutions within the first 30 characters (thorough tier)",
+                 "bytes-typed hashes beyond the concrete list", "scram algorithm-name characters (dictionary keyed by symbolic text)"],
         explanation="Per position the real parsing/verification code runs on a string with one arbitrary character; every "
                     "feasible path must end in a bool or ValueError/TypeError, and a path that verifies must force the "
                     "character to be the original one or a documented re-encoding (hex case).",
